@@ -195,4 +195,161 @@ Section WithV.
     - apply bind_ok in H as [lo [_ H]].
       destruct (n_slices hs), (n_slices ho); try discriminate. injection H as <-. apply inv_post_gslices. exact Hg'.
   Qed.
+
+  (** * One insert along the time axis *)
+
+  (** 5-D: everything goes through ('global','slices') (or is an unchanged constant) *)
+  Lemma time5_step hs hs' ho ks1 ko2 ks' c1 vs1 :
+    ndim hs = 5 -> ks1 = Some (c1, vs1) -> good_k hs ks1 ->
+    insert_sample_k veqb vnone hs ho ks1 ko2 BTime = Ok ks' -> good_k hs' ks' -> inv_post hs' ks'.
+  Proof.
+    intros Hnd -> Hg1 H Hg'. unfold insert_sample_k in H. rewrite (visible_good _ _ Hg1) in H.
+    cbn [samples_of_base] in H. apply bind_ok in H as [ov [_ H]].
+    rewrite Hnd in H. cbn [cbase_eqb Nat.eqb andb negb] in H. rewrite !andb_false_r in H.
+    assert (Hgen : forall lo, (match n_slices hs with
+                               | None => Err EType
+                               | Some n => match shape_at hs 3, shape_at ho 3, shape_at hs 4 with
+                                           | Some t, Some ot, Some v => Ok (Some (GSlices, interleave (n * t) (n * ot) v (fst lo) (snd lo)))
+                                           | _, _, _ => Err EIndex
+                                           end
+                               end : res (kst V)) = Ok ks' -> inv_post hs' ks').
+    { intros lo Hx. destruct (n_slices hs); [|discriminate].
+      destruct (shape_at hs 3), (shape_at ho 3), (shape_at hs 4); try discriminate.
+      injection Hx as <-. apply inv_post_gslices. exact Hg'. }
+    destruct c1; cbn [cls_eqb andb] in H;
+      try (apply bind_ok in H as [lo [_ H]]; apply (Hgen lo); exact H).
+    destruct (list_eqb veqb vs1 ov).
+    - injection H as <-. apply inv_post_gconst. exact Hg'.
+    - apply bind_ok in H as [lo [_ H]]. apply (Hgen lo); exact H.
+  Qed.
+
+  (** 4-D: a constant that starts to vary becomes ('time','samples'); ('time','samples') is extended in place *)
+  Lemma time4_step hs hs' ho j nS ks ko2 ks1 ks' :
+    time_ctx hs hs' ho j nS 1 -> ndim hs = 4 -> class_ok (shape hs) TSamples = true ->
+    (forall x, class_ok (shape hs') x = true -> class_ok (shape hs) x = true) ->
+    good_k hs ks -> good_k ho ko2 -> nondeg_k ho ko2 ->
+    (forall lv, ks = Some (TSamples, lv) -> canon_class (shape hs) (dims hs) (fden (dims hs) TSamples lv) TSamples) ->
+    reclassify_k vnone hs ks (oc_of ko2) = Ok ks1 ->
+    insert_sample_k veqb vnone hs ho ks1 ko2 BTime = Ok ks' ->
+    good_k hs' ks' ->
+    (forall s t v, s < nS -> t < S j -> v < 1 ->
+       den_k hs' ks' (s, t, v) = if t <? j then den_k hs ks (s, t, v) else den_k ho ko2 (s, 0, v)) ->
+    inv_post hs' ks'.
+  Proof.
+    intros X Hnd HokT Hmono Hgs Hgo Hndo Hpre Hr H Hg' Hden.
+    destruct X as [tx_hs0 tx_hs'0 tx_ho0 tx_j0 tx_d0 tx_do0 tx_d'0 tx_oko0 tx_ok'0 tx_base0 tx_sd0 tx_sdo0 tx_sd'0].
+    pose proof (dims_pos hs' _ _ _ tx_hs'0 tx_d'0) as [HS _].
+    assert (Hoko : class_ok (shape hs) (oc_of ko2) = true).
+    { destruct ko2 as [[c vs]|]; cbn [oc_of]; [apply tx_oko0; apply Hgo | apply class_ok_const; exact tx_hs0]. }
+    assert (Hocsl : is_slices (oc_of ko2) = true -> sdim hs <> None) by (intros _; exact tx_sd0).
+    destruct (reclassify_k_den vnone hs ks _ ks1 tx_hs0 Hgs Hoko Hocsl Hr) as [Hg1 [Hd1 [c1 [vs1 [E1 _]]]]].
+    pose proof (reclassify_outcome hs ks _ ks1 c1 vs1 Hgs Hr E1) as Hout. subst ks1.
+    unfold insert_sample_k in H. rewrite (visible_good _ _ Hg1) in H. cbn [samples_of_base] in H.
+    apply bind_ok in H as [ov [Eov H]].
+    rewrite Hnd in H. cbn [cbase_eqb Nat.eqb andb negb] in H. rewrite ?andb_true_r, ?andb_false_r in H.
+    assert (Hnot : oc_of ko2 <> TSamples).
+    { intros E. destruct ko2 as [[c vs]|]; cbn [oc_of] in E; [|discriminate]. subst c.
+      apply Hndo; [discriminate|]. rewrite tx_do0. reflexivity. }
+    assert (Hgen : forall lo, Ok (Some (GSlices, fst lo ++ snd lo)) = Ok ks' -> inv_post hs' ks').
+    { intros lo Hx. injection Hx as <-. apply inv_post_gslices. exact Hg'. }
+    destruct c1; cbn [cls_eqb andb] in H;
+      try (apply bind_ok in H as [lo [_ H]]; apply (Hgen lo); exact H).
+    - (* constant *)
+      destruct (list_eqb_spec veqb veqb_spec vs1 ov) as [Heq|Hne]; cbn [negb] in H;
+        [injection H as <-; apply inv_post_gconst; exact Hg'|].
+      apply bind_ok in H as [ks2 [E2 H]]. apply bind_ok in H as [ov2 [Eo2 H]].
+      destruct (change_class_k_den vnone hs _ _ ks2 tx_hs0 Hg1 HokT ltac:(intros Z; discriminate Z) E2) as [[lv2 ->] [Hg2 _]].
+      rewrite (visible_good _ _ Hg2) in H. injection H as <-.
+      assert (Hoc : class_ok (shape ho) GConst = true) by (apply class_ok_const; exact tx_ho0).
+      destruct (changed_class_den vnone ho ko2 GConst (sdim hs) ov tx_ho0 Hgo Hoc ltac:(intros Z; discriminate Z) Eov)
+        as [Hlo Hno].
+      assert (Hc' : class_ok (shape hs') TSamples = true) by (apply tx_ok'0; exact HokT).
+      split; [exact Hg'|]. right. apply (canon_split _ _ _ _ AxT Hc').
+      + intros x _ Hx [[s t] v]. destruct x; cbn [pref_rank] in Hx; try lia; reflexivity.
+      + exists (0, j, 0). rewrite tx_d'0. cbn [set_coord in_dims]. repeat split; try lia.
+        rewrite <- tx_d'0. rewrite !fden_den_k by exact Hc'. rewrite !Hden by lia.
+        rewrite Nat.ltb_irrefl. replace (0 <? j) with true by (symmetry; apply Nat.ltb_lt; lia).
+        intros E. apply Hne. apply len1_eq; [apply (good_len1 hs), Hg1 | rewrite Hlo; destruct (dims ho) as [[? ?] ?]; reflexivity|].
+        rewrite <- (Hd1 (0, 0, 0)) in E by (rewrite tx_d0; cbn [in_dims]; lia).
+        rewrite den_k_good in E by apply Hg1.
+        rewrite <- (Hno (0, 0, 0)) in E by (rewrite tx_do0; cbn [in_dims]; lia).
+        destruct (dims hs) as [[? ?] ?], (dims ho) as [[? ?] ?]. cbn [cidx] in E. symmetry. exact E.
+    - (* time samples: extended in place *)
+      injection H as <-. split; [exact Hg'|]. right.
+      assert (Eks : ks = Some (TSamples, vs1)).
+      { destruct Hout as [E|[E|E]]; [symmetry; exact E | congruence | discriminate]. }
+      pose proof (Hpre vs1 Eks) as Hcan.
+      assert (Hl1 : length vs1 = j) by (destruct Hg1 as [_ [_ Hl]]; rewrite Hl, tx_d0; cbn [mult_spec]; lia).
+      apply (canon_extend (shape hs) (shape hs') (dims hs) (dims hs') TSamples vs1 _ Hcan).
+      + apply Hg'.
+      + exact Hmono.
+      + intros [[s t] v]. rewrite tx_d0, tx_d'0. cbn [in_dims]. intros [Hs [Ht Hv]]. split; [lia|].
+        unfold ProofsSimplifyLayout.fden. cbn [cidx]. assert (v = 0) by lia. subst v.
+        rewrite !Nat.mul_0_r, !Nat.add_0_r. apply app_nth1. lia.
+  Qed.
+
+  (** * One insert along the vector axis *)
+  Lemma vec_step hs hs' ho j nS nT ks ko2 ks1 ks' :
+    vec_ctx hs hs' ho j nS nT ->
+    (forall x, class_ok (shape hs') x = true -> class_ok (shape hs) x = true) ->
+    (forall c, class_ok (shape ho) c = true -> class_ok (shape hs) c = true) ->
+    good_k hs ks -> good_k ho ko2 -> nondeg_k ho ko2 ->
+    (forall lv, ks = Some (VSamples, lv) -> canon_class (shape hs) (dims hs) (fden (dims hs) VSamples lv) VSamples) ->
+    reclassify_k vnone hs ks (oc_of ko2) = Ok ks1 ->
+    insert_sample_k veqb vnone hs ho ks1 ko2 BVector = Ok ks' ->
+    good_k hs' ks' ->
+    (forall s t v, s < nS -> t < nT -> v < S j ->
+       den_k hs' ks' (s, t, v) = if v <? j then den_k hs ks (s, t, v) else den_k ho ko2 (s, t, 0)) ->
+    inv_post hs' ks'.
+  Proof.
+    intros X Hmono Hoko0 Hgs Hgo Hndo Hpre Hr H Hg' Hden.
+    destruct X as [vx_hs0 vx_hs'0 vx_ho0 vx_j0 vx_d0 vx_do0 vx_d'0 vx_ok'0 vx_base0 vx_okV0 vx_sd0 vx_sdo0 vx_sd'0].
+    pose proof (dims_pos hs' _ _ _ vx_hs'0 vx_d'0) as [HS [HT _]].
+    assert (Hoko : class_ok (shape hs) (oc_of ko2) = true).
+    { destruct ko2 as [[c vs]|]; cbn [oc_of]; [apply Hoko0; apply Hgo | apply class_ok_const; exact vx_hs0]. }
+    assert (Hocsl : is_slices (oc_of ko2) = true -> sdim hs <> None) by (intros _; exact vx_sd0).
+    destruct (reclassify_k_den vnone hs ks _ ks1 vx_hs0 Hgs Hoko Hocsl Hr) as [Hg1 [Hd1 [c1 [vs1 [E1 _]]]]].
+    pose proof (reclassify_outcome hs ks _ ks1 c1 vs1 Hgs Hr E1) as Hout. subst ks1.
+    unfold insert_sample_k in H. rewrite (visible_good _ _ Hg1) in H. cbn [samples_of_base] in H.
+    apply bind_ok in H as [ov [Eov H]].
+    cbn [cbase_eqb andb negb] in H. rewrite ?andb_true_r, ?andb_false_r in H.
+    assert (Hnot : oc_of ko2 <> VSamples).
+    { intros E. destruct ko2 as [[c vs]|]; cbn [oc_of] in E; [|discriminate]. subst c.
+      apply Hndo; [discriminate|]. rewrite vx_do0. reflexivity. }
+    assert (Hgen : forall lo, Ok (Some (GSlices, fst lo ++ snd lo)) = Ok ks' -> inv_post hs' ks').
+    { intros lo Hx. injection Hx as <-. apply inv_post_gslices. exact Hg'. }
+    destruct c1; cbn [cls_eqb andb] in H;
+      try (apply bind_ok in H as [lo [_ H]]; apply (Hgen lo); exact H).
+    - (* constant *)
+      destruct (list_eqb_spec veqb veqb_spec vs1 ov) as [Heq|Hne]; cbn [negb] in H;
+        [injection H as <-; apply inv_post_gconst; exact Hg'|].
+      apply bind_ok in H as [ks2 [E2 H]]. apply bind_ok in H as [ov2 [Eo2 H]].
+      destruct (change_class_k_den vnone hs _ _ ks2 vx_hs0 Hg1 vx_okV0 ltac:(intros Z; discriminate Z) E2) as [[lv2 ->] [Hg2 _]].
+      rewrite (visible_good _ _ Hg2) in H. injection H as <-.
+      assert (Hoc : class_ok (shape ho) GConst = true) by (apply class_ok_const; exact vx_ho0).
+      destruct (changed_class_den vnone ho ko2 GConst (sdim hs) ov vx_ho0 Hgo Hoc ltac:(intros Z; discriminate Z) Eov)
+        as [Hlo Hno].
+      assert (Hc' : class_ok (shape hs') VSamples = true) by (apply vx_ok'0; exact vx_okV0).
+      split; [exact Hg'|]. right. apply (canon_split _ _ _ _ AxV Hc').
+      + intros x _ Hx [[s t] v]. destruct x; cbn [pref_rank] in Hx; try lia; reflexivity.
+      + exists (0, 0, j). rewrite vx_d'0. cbn [set_coord in_dims]. repeat split; try lia.
+        rewrite <- vx_d'0. rewrite !fden_den_k by exact Hc'. rewrite !Hden by lia.
+        rewrite Nat.ltb_irrefl. replace (0 <? j) with true by (symmetry; apply Nat.ltb_lt; lia).
+        intros E. apply Hne. apply len1_eq; [apply (good_len1 hs), Hg1 | rewrite Hlo; destruct (dims ho) as [[? ?] ?]; reflexivity|].
+        rewrite <- (Hd1 (0, 0, 0)) in E by (rewrite vx_d0; cbn [in_dims]; lia).
+        rewrite den_k_good in E by apply Hg1.
+        rewrite <- (Hno (0, 0, 0)) in E by (rewrite vx_do0; cbn [in_dims]; lia).
+        destruct (dims hs) as [[? ?] ?], (dims ho) as [[? ?] ?]. cbn [cidx] in E. symmetry. exact E.
+    - (* vector samples: extended in place *)
+      injection H as <-. split; [exact Hg'|]. right.
+      assert (Eks : ks = Some (VSamples, vs1)).
+      { destruct Hout as [E|[E|E]]; [symmetry; exact E | congruence | discriminate]. }
+      pose proof (Hpre vs1 Eks) as Hcan.
+      assert (Hl1 : length vs1 = j) by (destruct Hg1 as [_ [_ Hl]]; rewrite Hl, vx_d0; reflexivity).
+      apply (canon_extend (shape hs) (shape hs') (dims hs) (dims hs') VSamples vs1 _ Hcan).
+      + apply Hg'.
+      + exact Hmono.
+      + intros [[s t] v]. rewrite vx_d0, vx_d'0. cbn [in_dims]. intros [Hs [Ht Hv]]. split; [lia|].
+        unfold ProofsSimplifyLayout.fden. cbn [cidx]. apply app_nth1. lia.
+  Qed.
 End WithV.
